@@ -188,7 +188,7 @@ impl Driver for C09 {
         "C09"
     }
     fn units(&self, tier: Tier) -> usize {
-        tier.pick(320, 2400)
+        tier.pick(320, 10000)
     }
     fn run_unit(&self, ctx: &Ctx, out: &mut UnitOut, _start: usize, only: Option<usize>) {
         const EXH_UNITS: usize = 240;
